@@ -111,6 +111,13 @@ M = [
  ('signal-der-T', 'sampling_method.py', "        return BSplineSignal(bspline_derivative(self.coeff,self.xi,self.degree)/self.T, self.xi, self.degree-1, T=self.T)", "        return BSplineSignal(bspline_derivative(self.coeff,self.xi,self.degree), self.xi, self.degree-1, T=self.T)", ['C17']),
  ('greville', 'splines/micro_spline.py', "    source = (cs.DM(range(d,0,-1))/(cs.DM.ones(d,1)*d)).nonzeros()", "    source = (cs.DM(range(d,0,-1))/(cs.DM.ones(d,1)*d)).nonzeros()[::-1]", ['C17']),
  ('spline-time-refine', 'spline_method.py', "            self.time[refine] = ca.reshape(self.t0 + tau_refined*self.T, self.time[refine].shape)", "            pass", ['C17']),
+ # --- C03
+ ('builtin-time-rescale', 'sampling_method.py', "        res = f(x=X, u=U, p=P, t=t0+t*DT, z=Z)", "        res = f(x=X, u=U, p=P, t=t0+t, z=Z)", ['C03']),
+ ('builtin-ode-scale', 'sampling_method.py', "'ode': DT * res[\"ode\"], 'quad': DT * res[\"quad\"]", "'ode': DT_control * res[\"ode\"], 'quad': DT * res[\"quad\"]", ['C03']),
+ ('simulator-time', 'ocp.py', "        [ode,alg] = substitute([ode,alg],[self.t],[t0+tau*dt])", "        [ode,alg] = substitute([ode,alg],[self.t],[t0+tau])", ['C03']),
+ ('rk-quad-order', 'sampling_method.py', 'DT / 6 * (k1["quad"] + 2 * k2["quad"] + 2 * k3["quad"] + k4["quad"])', 'DT / 6 * (k1["quad"] + 4 * k2["quad"] + k4["quad"])', ['C03', 'C05']),
+ ('rk-stage2-state', 'sampling_method.py', '        k3 = f(x=X + DT / 2 * k2["ode"], u=U, p=P, t=t0+DT/2)', '        k3 = f(x=X + DT / 2 * k1["ode"], u=U, p=P, t=t0+DT/2)', ['C03', 'C01']),
+ ('dc-quad-weights-radau1', 'direct_collocation.py', "        self.B = hcat(B)\n", "        pass\n", ['C03', 'C05']),
 ]
 
 def main():
